@@ -10,7 +10,10 @@ import fcntl, hashlib, json, os, random, re, shutil, subprocess, sys, time
 VERIF = os.path.dirname(os.path.dirname(os.path.abspath(__file__)))
 REPO = os.environ.get("VERIF_REPO", "/repo")
 LEAN = os.path.join(VERIF, "lean")
-BUILD = os.path.join(VERIF, "build")
+BUILD_ROOT = os.path.join(VERIF, "build")
+# artefacts built from a scratch worktree (VERIF_REPO=…) live in their own directory so that concurrent
+# runs against different trees do not overwrite each other's harness binaries
+BUILD = BUILD_ROOT if REPO == "/repo" else os.path.join(BUILD_ROOT, "alt_" + hashlib.sha1(REPO.encode()).hexdigest()[:8])
 EVID = os.path.join(VERIF, "evidence")
 REPLAY = os.path.join(BUILD, "replay")
 NCPU = os.cpu_count() or 4
@@ -53,8 +56,9 @@ def sh(cmd, cwd=None, timeout=None, input=None, env=None):
 
 class flock:
     def __init__(self, name):
+        os.makedirs(BUILD_ROOT, exist_ok=True)
         os.makedirs(BUILD, exist_ok=True)
-        self.path = os.path.join(BUILD, "." + name + ".lock")
+        self.path = os.path.join(BUILD_ROOT if name == "lake" else BUILD, "." + name + ".lock")
 
     def __enter__(self):
         self.f = open(self.path, "w")
